@@ -13,7 +13,7 @@ INFO = {
             "slice for canonical input, empty data builds. Checksum with 5 hash/digest-field combinations over fixed and variable "
             "layouts: built messages verify, every single-bit flip (all 2-bit flips for crc/cryptographic digests over small regions in "
             "thorough) of covered bytes and digest raises ChecksumError (fixed layout) / is not accepted (variable layout). "
-            "non-trivial = RawCopy result fields compared / corrupted message judged; distinct = (shape, placement, payload or flip)",
+            "RawCopy fields reported in the build context (nested RawCopy, Tell; 0/1/3 leading bytes) against the parse of the built message; integer digests of 64 and 128 bits. non-trivial = RawCopy result fields compared / corrupted message judged; distinct = (shape, placement, payload or flip)",
     "bounds": {"quick": {"L": 4, "flips": 1}, "thorough": {"L": 5, "flips": 2}},
     "trusted_base": ["hashlib, zlib.crc32", "slice arithmetic on the input bytes"],
     "assumptions": ["sum-mod-256 is only required to detect single-bit flips"],
@@ -66,6 +66,9 @@ def units(tier):
     for name in checksum_shapes():
         us.append({"kind": "checksum", "shape": name})
     us.append({"kind": "build-data"})
+    for i in inners():
+        if i != "GreedyBytes":      # members follow the region
+            us.append({"kind": "build-fields", "inner": i})
     from .. import scale
     for n in scale.sizes(tier):
         us.append({"kind": "scale", "size": n})
@@ -146,6 +149,66 @@ def check_rawcopy(iname, pname, data, start):
     return "ok", out
 
 
+def check_rawcopy_buildfields(iname, lead, data):
+    """what RawCopy reports WHILE BUILDING from a value (offsets, data, length put into the context, where Rebuild/Check/Pointer of
+    later members read them) equals what parsing the built message reports, also for a RawCopy nested in the region and for Tell
+    inside it, with the region starting at a non-zero offset"""
+    import construct as C
+    inner = inners()[iname]()
+    log = []
+    class Probe(C.Construct):
+        def __init__(self):
+            super().__init__()
+            self.flagbuildnone = True
+        def _parse(self, stream, context, path):
+            return None
+        def _build(self, obj, stream, context, path):
+            log.append(context.get("r"))
+            return None
+        def _sizeof(self, context, path):
+            return 0
+    d = C.Struct("pre" / C.Bytes(lead), "r" / C.RawCopy(C.Struct("t" / C.Tell, "i" / C.RawCopy(inner), "u" / C.Tell)), "z" / C.Byte, "p" / Probe())
+    case = {"t": "rawcopy-buildfields", "inner": iname, "lead": lead, "data": data}
+    sig = "C14/rawcopy/build-fields/" + iname
+    try:
+        with watchdog(3):
+            val = inner.parse(data)
+            if inner.build(val) != data:
+                return "noncanonical", []
+    except Hang:
+        return "hang", []
+    except Exception:
+        return "rejected", []
+    try:
+        with watchdog(3):
+            built = d.build(dict(pre=b"\xee" * lead, r=dict(value=dict(i=dict(value=val))), z=7))
+            parsed = d.parse(built)
+    except Hang:
+        return "hang", [{"sig": sig + "/hang", "case": case, "detail": "did not terminate"}]
+    except Exception as e:
+        return "bad", [{"sig": sig + "/raised-" + type(e).__name__, "case": case, "detail": "build from value / parse of the built message raised %r" % (e,)}]
+    out = []
+    b = log[-1] if log else None
+    if b is None:
+        return "bad", [{"sig": sig + "/no-result-in-context", "case": case, "detail": "the build context has no entry for the RawCopy member"}]
+    def fields(rc):
+        return (rc["offset1"], rc["offset2"], rc["length"], bytes(rc["data"]))
+    try:
+        pairs = [("outer", fields(b), fields(parsed["r"])), ("nested", fields(b["value"]["i"]), fields(parsed["r"]["value"]["i"])),
+                 ("tell", (b["value"]["t"], b["value"]["u"]), (parsed["r"]["value"]["t"], parsed["r"]["value"]["u"]))]
+    except Exception as e:
+        return "bad", [{"sig": sig + "/fields-missing", "case": case, "detail": repr(e)}]
+    for nm, fb, fp in pairs:
+        if fb != fp:
+            out.append({"sig": sig + "/" + nm + "-differs-from-parse", "case": case,
+                        "detail": "RawCopy(%s) after %d leading bytes, built message %s: while building the %s region reported %r, parsing the message reports %r" % (iname, lead, built.hex(), nm, fb, fp)})
+    for nm, rc in (("outer", b), ("nested", b["value"]["i"])):
+        if bytes(rc["data"]) != built[rc["offset1"]:rc["offset2"]]:
+            out.append({"sig": sig + "/" + nm + "-data-not-the-slice", "case": case,
+                        "detail": "while building, %s data %r != message[%d:%d] = %r" % (nm, bytes(rc["data"]), rc["offset1"], rc["offset2"], built[rc["offset1"]:rc["offset2"]])})
+    return ("bad" if out else "ok"), out
+
+
 # ---------------------------------------------------------------------------- checksum
 
 def hashes():
@@ -155,6 +218,10 @@ def hashes():
         "sha256": (lambda: __import__("construct").Bytes(32), lambda b: hashlib.sha256(b).digest(), True),
         "crc32": (lambda: __import__("construct").Int32ub, lambda b: zlib.crc32(b) & 0xffffffff, True),
         "sum8": (lambda: __import__("construct").Byte, lambda b: sum(b) & 0xff, False),
+        # integer digests wider than 32 bits, and a little-endian one
+        "md5-int64": (lambda: __import__("construct").Int64ub, lambda b: int.from_bytes(hashlib.md5(b).digest()[:8], "big"), True),
+        "md5-int128": (lambda: __import__("construct").BytesInteger(16), lambda b: int.from_bytes(hashlib.md5(b).digest(), "big"), True),
+        "sha1-int64le": (lambda: __import__("construct").Int64ul, lambda b: int.from_bytes(hashlib.sha1(b).digest()[:8], "little"), True),
     }
 
 
@@ -420,6 +487,15 @@ def run_unit(unit, tier):
                 for v in vs:
                     r.violation(v["sig"], v["case"], v["detail"])
         r.sample({"inner": unit["inner"], "placement": unit["placement"], "starts": STARTS, "payloads": len(sigma(L))})
+    elif k == "build-fields":
+        for lead in (0, 1, 3):
+            for data in sigma(min(INFO["bounds"][tier]["L"], 3)):
+                r.states += 1
+                oc, vs = check_rawcopy_buildfields(unit["inner"], lead, data)
+                r.case(nontrivial=oc == "ok", outcome="bf-" + oc, transitions=2, validated=1)
+                for v in vs:
+                    r.violation(v["sig"], v["case"], v["detail"])
+        r.sample({"build_fields_inner": unit["inner"], "leads": [0, 1, 3]})
     elif k == "checksum":
         for v in check_checksum(unit["shape"], tier, r):
             r.violation(v["sig"], v["case"], v["detail"])
@@ -432,6 +508,8 @@ def run_unit(unit, tier):
 
 
 def replay(case):
+    if case.get("t") == "rawcopy-buildfields":
+        return check_rawcopy_buildfields(case["inner"], case["lead"], case["data"])[1]
     if case.get("t") == "scale":
         r = UnitResult(); run_scale(case["size"], r)
         return [v for v in r.violations if v["case"].get("shape") == case["shape"]]
